@@ -444,7 +444,31 @@ type eg struct {
 	vars   map[string][]string
 	idents bool // free identifiers allowed (Lambda unit: ParseLambda does not resolve them)
 	noParn bool // no redundant parentheses
+	// known defect classes avoided by construction (Pipeline unit); count is called for every avoided draw
+	noCalls  bool
+	noBigInt bool
+	noRegex  bool
+	count    func(class string)
 }
+
+const (
+	classK1 = "K1 JSON of a lambda: function call (the function name is not serialised)"
+	classK4 = "K4 JSON of a lambda: integer literal beyond 2^53 (decoded through float64)"
+)
+
+func (g *eg) filter(e *Expr) *Expr {
+	if g.noCalls && e.K == "call" {
+		if g.count != nil {
+			g.count(classK1)
+		}
+		return g.ref()
+	}
+	return e
+}
+
+func (g *eg) num(d int) *Expr     { return g.filter(g.num0(d)) }
+func (g *eg) str(d int) *Expr     { return g.filter(g.str0(d)) }
+func (g *eg) boolean(d int) *Expr { return g.filter(g.boolean0(d)) }
 
 func (g *eg) paren(e *Expr) *Expr {
 	if g.noParn {
@@ -469,7 +493,16 @@ func (g *eg) pickVar(typ string) *Expr {
 	return nil
 }
 
-func (g *eg) intLit() *Expr { return &Expr{K: "int", V: rapid.SampledFrom(intForms).Draw(g.t, "int")} }
+func (g *eg) intLit() *Expr {
+	e := &Expr{K: "int", V: rapid.SampledFrom(intForms).Draw(g.t, "int")}
+	if g.noBigInt && isBigInt(e) {
+		if g.count != nil {
+			g.count(classK4)
+		}
+		e.V = "42"
+	}
+	return e
+}
 func (g *eg) fltLit() *Expr { return &Expr{K: "flt", V: rapid.SampledFrom(fltForms).Draw(g.t, "flt")} }
 func (g *eg) durLit() *Expr {
 	return &Expr{K: "dur", V: rapid.SampledFrom(durNums).Draw(g.t, "durN") + rapid.SampledFrom(durUnits).Draw(g.t, "durU")}
@@ -502,7 +535,7 @@ func (g *eg) regex(allowEmpty bool) *Expr {
 	return &Expr{K: "re", V: v}
 }
 
-func (g *eg) num(d int) *Expr {
+func (g *eg) num0(d int) *Expr {
 	t := g.t
 	if v := g.pickVar("num"); v != nil {
 		return v
@@ -546,7 +579,7 @@ func (g *eg) num(d int) *Expr {
 	}
 }
 
-func (g *eg) str(d int) *Expr {
+func (g *eg) str0(d int) *Expr {
 	t := g.t
 	if v := g.pickVar("str"); v != nil {
 		return v
@@ -583,7 +616,7 @@ func (g *eg) regexOrVar(allowEmpty bool) *Expr {
 	return g.regex(allowEmpty)
 }
 
-func (g *eg) boolean(d int) *Expr {
+func (g *eg) boolean0(d int) *Expr {
 	t := g.t
 	if v := g.pickVar("bool"); v != nil {
 		return v
